@@ -1,7 +1,8 @@
 // C17 correspondence harness: a private TestRegistry (inside a TestTestingFixture that lives for the
 // whole case) with a real SetPointerPlugin and up to 10 recording plugins; scripted tests redirect
 // 52 global pointer variables of four types (void*, function pointer, double*, int**) through UT_PTR_SET and
-// end by pass / FAIL / FAIL_C / throw; `run <outcome> sep|ign|runign` runs the same body in a separate
+// end by pass / FAIL / FAIL_C / throw - from the body, and (outcome `<setup>/<body>/<teardown>`) from setup() and
+// teardown() as well, with UtestShell::setRethrowExceptions(false); `run <outcome> sep|ign|runign` runs the same body in a separate
 // process / as an IgnoredUtestShell / as a run-ignored one; plugins f0, f1 (ids 20, 21) report a failure from
 // their pre action.  `test <outcome> <body change> <post-action change>` queues a test, `runall` runs the queue through
 // ONE TestRegistry::runAllTests; a queued test may install / remove a plugin on the running registry from its body
@@ -47,7 +48,8 @@ Shared* g_sh = 0;
 // A batch: several scripted tests run by ONE TestRegistry::runAllTests.  A test may change the chain of the
 // running registry once from its body and once from the post action of a designated recording plugin.
 struct Script {
-    std::vector<std::pair<unsigned, unsigned> > sets; std::string outcome;
+    std::vector<std::pair<unsigned, unsigned> > sets; std::string outcome;   // outcome of the body
+    std::string setup, teardown;                                             // how setup() / teardown() end ("pass" = normally)
     int bm_kind; unsigned bm_idx; std::string bm_name;                 // 0 none, 1 install rec[bm_idx], 2 remove bm_name
     unsigned pm_actor; int pm_kind; unsigned pm_idx; std::string pm_name;
     Script() : bm_kind(0), bm_idx(0), pm_actor(0), pm_kind(0), pm_idx(0) {}
@@ -115,6 +117,26 @@ std::vector<RecPlugin*>* g_failing = 0;
 Script* g_script = 0;
 volatile unsigned g_done = 0;
 
+void end_phase(const char* o) {
+    if (strcmp(o, "fail") == 0) FAIL("scripted failure");
+    if (strcmp(o, "failc") == 0) FAIL_TEXT_C("scripted C failure");
+    if (strcmp(o, "throw") == 0) throw std::runtime_error("scripted exception");
+    if (strcmp(o, "throwint") == 0) throw 42;
+}
+// "<body>" or "<setup>/<body>/<teardown>", each of pass|fail|failc|throw|throwint
+bool valid_end(const std::string& o) { return o == "pass" || o == "fail" || o == "failc" || o == "throw" || o == "throwint"; }
+bool parse_outcome(const std::string& w, Script& sc) {
+    size_t a = w.find('/');
+    if (a == std::string::npos) { sc.setup = "pass"; sc.outcome = w; sc.teardown = "pass"; }
+    else {
+        size_t b = w.find('/', a + 1);
+        if (b == std::string::npos) return false;
+        sc.setup = w.substr(0, a); sc.outcome = w.substr(a + 1, b - a - 1); sc.teardown = w.substr(b + 1);
+    }
+    return valid_end(sc.setup) && valid_end(sc.outcome) && valid_end(sc.teardown);
+}
+std::string canon_outcome(const Script& sc) { return sc.setup + "/" + sc.outcome + "/" + sc.teardown; }
+
 void run_script(const Script* s, volatile unsigned* done_counter);
 void body() { run_script(g_script, g_batch_active ? &g_bdone[g_bn ? g_bn - 1 : 0] : &g_sh->done); }
 struct ScriptFn : public ExecFunction {
@@ -136,15 +158,22 @@ void run_script(const Script* s, volatile unsigned* done_counter) {
     }
     // the change of the running registry's chain: after the redirections, before the test ends
     if (s->bm_kind) change_chain(s->bm_kind, s->bm_idx, s->bm_name.c_str());
-    const char* o = s->outcome.c_str();
-    if (strcmp(o, "fail") == 0) FAIL("scripted failure");
-    if (strcmp(o, "failc") == 0) FAIL_TEXT_C("scripted C failure");
-    if (strcmp(o, "throw") == 0) throw std::runtime_error("scripted exception");
-    if (strcmp(o, "throwint") == 0) throw 42;
+    end_phase(s->outcome.c_str());
 }
 
+// setup() and teardown() of every scripted test: they only end the way the script says
+const Script* current_script() {
+    if (g_batch_active) return g_bscript[batch_index(UtestShell::getCurrent())];
+    return g_script;
+}
+void setup_fn() { const Script* s = current_script(); if (s) end_phase(s->setup.c_str()); }
+void teardown_fn() { const Script* s = current_script(); if (s) end_phase(s->teardown.c_str()); }
+
 // an ignored test with the same body
-class BodyUtest : public Utest { public: void testBody() CPPUTEST_OVERRIDE { body(); } };
+class BodyUtest : public Utest { public:
+    void setup() CPPUTEST_OVERRIDE { setup_fn(); }
+    void testBody() CPPUTEST_OVERRIDE { body(); }
+    void teardown() CPPUTEST_OVERRIDE { teardown_fn(); } };
 class IgnoredBodyShell : public IgnoredUtestShell { public: Utest* createTest() CPPUTEST_OVERRIDE { return new BodyUtest; } };
 
 std::string val_token(unsigned l) {
@@ -188,6 +217,8 @@ void run_case(const vh::Case& c) {
     memset(g_sh, 0, sizeof(Shared));
     TestTestingFixture fixture;
     fixture.setTestFunction(body);
+    fixture.setSetup(setup_fn); fixture.setTeardown(teardown_fn);
+    UtestShell::setRethrowExceptions(false);        // as the library and `-e` have it: exceptions become test failures
     TestRegistry* reg = fixture.getRegistry();
     g_reg = reg;
     // SetPointerPlugin objects: ids SET_ID, SET_ID+1, ...; `newset` constructs a further one (the constructor
@@ -203,7 +234,7 @@ void run_case(const vh::Case& c) {
     failing.push_back(new FailPrePlugin("f0", FAIL_ID)); failing.push_back(new FailPrePlugin("f1", FAIL_ID + 1));
     g_failing = &failing;
     // shells for the other ways of running the same body
-    ExecFunctionTestShell sepShell; ExecFunctionWithoutParameters sepFn(body); sepShell.testFunction_ = &sepFn;
+    ExecFunctionTestShell sepShell(setup_fn, teardown_fn); ExecFunctionWithoutParameters sepFn(body); sepShell.testFunction_ = &sepFn;
     sepShell.setRunInSeperateProcess();
     IgnoredBodyShell ignShell, runIgnShell; runIgnShell.setRunIgnored();
 
@@ -294,20 +325,19 @@ void run_case(const vh::Case& c) {
             pending.push_back(std::make_pair(l, v));
         }
         else if (w[0] == "run" && (w.size() == 2 || w.size() == 3)) {   // run <outcome> [normal|sep|ign|runign]: one test with the collected body
-            Script sc; sc.outcome = w[1];
+            Script sc;
             std::string kind = w.size() == 3 ? w[2] : "normal";
-            if (sc.outcome != "pass" && sc.outcome != "fail" && sc.outcome != "failc" && sc.outcome != "throw" && sc.outcome != "throwint") {
-                vh::emit("> skip"); continue;
-            }
+            if (!parse_outcome(w[1], sc)) { vh::emit("> skip"); continue; }
             if (kind != "normal" && kind != "sep" && kind != "ign" && kind != "runign") { vh::emit("> skip"); continue; }
             sc.sets = pending; pending.clear();
-            vh::emit("> run %s %s", sc.outcome.c_str(), kind.c_str());
+            vh::emit("> run %s %s", canon_outcome(sc).c_str(), kind.c_str());
             g_script = &sc;
             g_sh->done = 0; g_sh->npre = 0; g_sh->npost = 0;
             size_t failures; std::string out;
             if (kind == "normal") {
                 fixture.flushOutputAndResetResult();
-                fixture.runAllTests();
+                // with rethrow off nothing may come out of the runner; if something does, say so and go on observing
+                try { fixture.runAllTests(); } catch (...) { vh::emit("exception-escaped-the-runner"); }
                 failures = fixture.getFailureCount();
                 out = fixture.getOutput().asCharString();
             }
@@ -316,7 +346,7 @@ void run_case(const vh::Case& c) {
                 StringBufferTestOutput o; TestResult res(o);
                 UtestShell* shell = kind == "sep" ? (UtestShell*) &sepShell : kind == "ign" ? (UtestShell*) &ignShell : (UtestShell*) &runIgnShell;
                 fflush(stdout);
-                shell->runOneTest(reg->getFirstPlugin(), res);
+                try { shell->runOneTest(reg->getFirstPlugin(), res); } catch (...) { vh::emit("exception-escaped-the-runner"); }
                 failures = res.getFailureCount();
                 out = o.getOutput().asCharString();
                 if (kind == "ign" && res.getIgnoredCount() != 1) vh::emit("not-counted-as-ignored");
@@ -331,8 +361,8 @@ void run_case(const vh::Case& c) {
             vh::emit("%s", m.c_str());
         }
         else if (w[0] == "test" && w.size() == 4) {      // test <outcome> <-|i<rec>|r<name>> <-|<actor>:i<rec>|<actor>:r<name>>: queued for `runall`
-            Script sc; sc.outcome = w[1];
-            bool ok = sc.outcome == "pass" || sc.outcome == "fail" || sc.outcome == "failc" || sc.outcome == "throw" || sc.outcome == "throwint";
+            Script sc;
+            bool ok = parse_outcome(w[1], sc);
             std::string bm = "-", pm = "-"; char buf[64];
             if (w[2] != "-") {
                 if (w[2][0] == 'i') { sc.bm_kind = 1; sc.bm_idx = (unsigned) vh::to_u64(w[2].substr(1)); ok = ok && sc.bm_idx < NREC - 2;
@@ -355,7 +385,7 @@ void run_case(const vh::Case& c) {
             }
             if (!ok || batch.size() >= MAXBATCH) { vh::emit("> skip"); continue; }
             sc.sets = pending; pending.clear();
-            vh::emit("> test %s %s %s", sc.outcome.c_str(), bm.c_str(), pm.c_str());
+            vh::emit("> test %s %s %s", canon_outcome(sc).c_str(), bm.c_str(), pm.c_str());
             batch.push_back(sc);
         }
         else if (w[0] == "runall" && w.size() == 1) {      // all queued tests through ONE TestRegistry::runAllTests
@@ -366,7 +396,7 @@ void run_case(const vh::Case& c) {
             g_bn = n; g_nblog = 0; g_bskipped = 0;
             for (unsigned k = 0; k < n; k++) { g_bscript[k] = &batch[k]; g_bdone[k] = 0; g_bshell[k] = 0; }
             for (unsigned k = 0; k + 1 < n; k++) {
-                ExecFunctionTestShell* sh = new ExecFunctionTestShell(); ScriptFn* fn = new ScriptFn(&batch[k], k);
+                ExecFunctionTestShell* sh = new ExecFunctionTestShell(setup_fn, teardown_fn); ScriptFn* fn = new ScriptFn(&batch[k], k);
                 sh->testFunction_ = fn; shells.push_back(sh); fns.push_back(fn); g_bshell[k] = sh;
             }
             // addTest puts a test in FRONT of the list: add in reverse so that they run in script order;
@@ -375,7 +405,7 @@ void run_case(const vh::Case& c) {
             g_script = &batch[n - 1];
             g_batch_active = true;
             fixture.flushOutputAndResetResult();
-            fixture.runAllTests();
+            try { fixture.runAllTests(); } catch (...) { vh::emit("exception-escaped-the-runner"); }
             g_batch_active = false;
             for (unsigned k = 0; k + 1 < n; k++) reg->unDoLastAddTest();
             for (unsigned k = 0; k < n; k++) {
